@@ -397,6 +397,14 @@ def container_method(ex, recv: VRef, name, args, kwargs, st):
                 else:
                     out.append(Res("raise", "KeyError", bs))
             return out
+        if name == "update":
+            # set.update(iterable): union with the elements of a sequence
+            sq = arith.as_seq(ex.to_seq_value(args[0], st))
+            dom = st.dict_dom(r)
+            x, j = z3.Int("x!upd"), z3.Int("j!upd")
+            new = z3.Lambda([x], z3.Or(z3.Select(dom, x), z3.Exists([j], z3.And(j >= 0, j < sq.n, z3.Select(sq.arr, j) == x))))
+            st.dict_store(r, new, st.dict_vals(r))
+            return [Res("val", None, st)]
         if name in ("discard",):
             st.dict_store(r, z3.Store(st.dict_dom(r), z_int(args[0]), z3.BoolVal(False)), st.dict_vals(r))
             return [Res("val", None, st)]
